@@ -296,6 +296,8 @@ def grow_segment(F, R):
 
 
 def check(F, R, tier):
+    from . import C08
+    C08.segment_size(F, R)   # the static data segment reserves the worst-case alignment slack (every configured chunk fits)
     grow_segment(F, R)
     lib.cas_loops_fresh(R, F, r'bump_allocator::BumpAllocator as .*Allocate', 1, 'a decision computed once before the loop is stale after the first failed CAS')
     bucket_allocator(F, R)
